@@ -25,9 +25,13 @@ def items(tier):
         out.append(mk("C07", p, "search", L, "", strategy=strat))
         if tier != "quick":
             out.append(mk("C07", p, "search", 2, "", strategy=strat))
+    # resumed searches on a haystack longer than 100 bytes (the "estimated start = end - 100" paths of the adaptive strategy)
+    long_pre = "-" * 95 + "abx12 ---- cd"
+    out.append(mk("C07", r"[a-z]{2,5}x[0-9]{2,5}", "search", 3, "hex:" + b"x34-a".hex(), pre=long_pre, post=" ---- efx56 --", timeout_s=600))
+    out.append(mk("C07", r"[a-z]+[0-9]+", "search", 3, "hex:" + b"a1-".hex(), pre="-" * 99 + "ab12 ", post=" cd34"))
     for p in (HP[:2] if tier == "quick" else HP):
         for i in range(len(p)):
-            d = mk("C07", p[:i] + "\x00" + p[i + 1:], "compile", 0, "set:" + M, timeout_s=600)
+            d = mk("C07", p[:i] + "\x00" + p[i + 1:], "compile", 0, "set:" + M, timeout_s=600, extra=p[i])
             d["id"] = "C07|%s|compile|hole%d" % (p, i)
             out.append(d)
     return out
